@@ -21,7 +21,117 @@ func resetModels(t *Task) {
 	ptrSerial = nil
 	mapOrderChoice = -1
 	syncMaps = map[*value][]syncMapEntry{}
+	released = nil
+	releasedCells = nil
 	resetRegexpModel()
+}
+
+// ---- ownership discipline of pooled objects (C12, concurrency half) ----
+//
+// An object handed to (*sync.Pool).Put belongs to the pool: on the real
+// machine any other goroutine may Get it at once.  A load or store by the
+// releasing call through memory of that object (its fields, nested
+// structs/arrays, and the backing arrays of its slices) after the Put is
+// therefore a data race with the next owner, even though a sequential
+// run shows nothing.  The model records the cells of every released
+// object until a Get hands it out again; an access in between is
+// reported as "C12/no-use-after-release".
+
+var released map[*value]struct{}
+var releasedCells map[*value][]*value
+
+const releasedSliceCap = 1024
+
+func poolRelease(obj value) {
+	x, ok := obj.(iface)
+	if ok {
+		obj = x.v
+	}
+	p, ok := obj.(*value)
+	if !ok || p == nil {
+		return
+	}
+	var cells []*value
+	var walk func(a *value)
+	walk = func(a *value) {
+		cells = append(cells, a)
+		switch v := (*a).(type) {
+		case structure:
+			for i := range v {
+				walk(&v[i])
+			}
+		case array:
+			for i := range v {
+				walk(&v[i])
+			}
+		case []value:
+			full := v[:cap(v)]
+			if len(full) > releasedSliceCap {
+				full = full[:releasedSliceCap]
+			}
+			for i := range full {
+				cells = append(cells, &full[i])
+			}
+		}
+	}
+	walk(p)
+	if released == nil {
+		released = map[*value]struct{}{}
+		releasedCells = map[*value][]*value{}
+	}
+	for _, c := range cells {
+		released[c] = struct{}{}
+	}
+	releasedCells[p] = cells
+}
+
+func poolAcquire(obj value) {
+	if x, ok := obj.(iface); ok {
+		obj = x.v
+	}
+	p, ok := obj.(*value)
+	if !ok {
+		return
+	}
+	for _, c := range releasedCells[p] {
+		delete(released, c)
+	}
+	delete(releasedCells, p)
+}
+
+// checkReleased reports an access to a cell of a released pool object.
+func checkReleased(fr *frame, addr *value, pos token.Pos) {
+	if _, ok := released[addr]; !ok {
+		return
+	}
+	if !propEnabled("C12/") || curPC == nil {
+		return
+	}
+	loc := ""
+	if pos.IsValid() {
+		ps := fr.i.prog.Fset.Position(pos)
+		f := ps.Filename
+		for i := len(f) - 1; i >= 0; i-- {
+			if f[i] == '/' {
+				f = f[i+1:]
+				break
+			}
+		}
+		loc = f + ":" + itoa(ps.Line)
+	}
+	curPC.nAsserts++
+	curPC.assertProp(curTT.boolc(false), "C12/no-use-after-release fn="+fr.fn.String()+" at="+loc)
+}
+
+func itoa(n int) string {
+	if n == 0 {
+		return "0"
+	}
+	s := ""
+	for ; n > 0; n /= 10 {
+		s = string(rune('0'+n%10)) + s
+	}
+	return s
 }
 
 func init() {
@@ -41,6 +151,7 @@ func init() {
 			v := l[k]
 			pools[p] = append(append([]value{}, l[:k]...), l[k+1:]...)
 			poolReuses++
+			poolAcquire(v)
 			return v
 		}
 		return poolNew(fr, p)
@@ -48,6 +159,7 @@ func init() {
 	externals["(*sync.Pool).Put"] = func(fr *frame, args []value) value {
 		p := args[0].(*value)
 		pools[p] = append(pools[p], args[1])
+		poolRelease(args[1])
 		return nil
 	}
 }
